@@ -201,6 +201,11 @@ IteratorDictString *StringDictionaryXBW::extractPrefix(uchar *str,
   xbw->subPathSearch(qry, strLen + 1, &left, &right);
   delete[] qry;
 
+  // No string uses the required prefix (the iterator copies the prefix into a
+  // buffer sized for the longest string, so it must not be built for it)
+  if (left > right)
+    return NULL;
+
   return new IteratorDictStringXBW(str, strLen, left, right, xbw, maxlength);
 }
 
